@@ -10,6 +10,7 @@ Unit file directives (a line starting with `#!`):
 
   #! unit NAME
   #! raw                                   verbatim Verus text until the next directive
+  #! feature NAME                           emit crate attribute #![feature(NAME)] (e.g. allocator_api, to name std allocator-generic types in trusted specs)
   #! consts FILE NAME...                    copy `const` items (R0 applied)
   #! item FILE NAME                         copy a struct/enum/type item (R0 applied, derives dropped)
   #! fn FILE [Type::]name key=val...        copy a function; keys: tags=C05,C07 rules=R1,R3 ret=r
@@ -318,12 +319,222 @@ def rule_R11(src, stats):
     return src
 
 
+def rule_R12(src, stats):
+    """(consts directive, automatic for `static` items) `static N: T = { B };` -> `pub exec static N: T ensures vx_static_N(N@) { B }`:
+    the initializer is verified against the unit's spec fn `vx_static_N` (Verus only exposes a static through its ensures)"""
+    m = re.match(r"\s*(?:pub\s+)?static\s+(\w+)\s*:\s*([^=]+?)\s*=\s*\{(.*)\}\s*;\s*$", src, re.S)
+    if not m:
+        raise ExtractError("R12: static item is not of the form `static N: T = { .. };`")
+    stats["R12"] = stats.get("R12", 0) + 1
+    return "pub exec static %s: %s\n    ensures vx_static_%s(%s@)\n{%s}" % (m.group(1), m.group(2), m.group(1), m.group(1), m.group(3))
+
+
+def rule_R13(src, stats):
+    """for P in A.into_iter() { B }  (A: local fixed-size array of Copy items; B without `continue`)
+    -> let vx_aN = A; let mut vx_iN = 0; while vx_iN < vx_aN.len() { let P = vx_aN[vx_iN]; B vx_iN += 1; }
+    (Verus has no model of core::array::IntoIter; the items are visited in index order either way)"""
+    while True:
+        code = _toks(src)
+        hit = False
+        for ordinal, (kw, bopen, bclose) in enumerate(_loops(code), 1):
+            if code[kw].text != "for":
+                continue
+            m = re.match(r"for\s+(\w+)\s+in\s+(\w+)\s*\.\s*into_iter\s*\(\s*\)\s*$", src[code[kw].start:code[bopen].start], re.S)
+            if not m:
+                continue
+            if any(t.kind == "ident" and t.text == "continue" for t in code[bopen:bclose]):
+                raise ExtractError("R13: loop body contains `continue`")
+            p_, a_ = m.groups()
+            src = _replace_spans(src, [
+                (code[kw].start, code[bopen].end,
+                 "let vx_a%d = %s; let mut vx_i%d = 0; while vx_i%d < vx_a%d.len() { let %s = vx_a%d[vx_i%d];" % (ordinal, a_, ordinal, ordinal, ordinal, p_, ordinal, ordinal)),
+                (code[bclose].start, code[bclose].start, " vx_i%d += 1; " % ordinal)])
+            stats["R13"] = stats.get("R13", 0) + 1
+            hit = True
+            break
+        if not hit:
+            return src
+
+
+def rule_R14(src, stats):
+    """.map(Path::Variant) (tuple-variant constructor passed as a function value) -> .map(|vx_eN| Path::Variant(vx_eN))  (eta expansion)"""
+    code = _toks(src)
+    spans = []
+    for i in range(len(code) - 6):
+        if (code[i].text == "." and code[i + 1].text == "map" and code[i + 2].text == "(" and code[i + 3].kind == "ident"
+                and code[i + 4].text == ":" and code[i + 5].text == ":" and code[i + 6].kind == "ident"
+                and code[i + 6].text[:1].isupper() and code[i + 7].text == ")"):
+            n = stats.get("R14", 0)
+            path = src[code[i + 3].start:code[i + 6].end]
+            spans.append((code[i + 3].start, code[i + 6].end, "|vx_e%d| %s(vx_e%d)" % (n, path, n)))
+            stats["R14"] = n + 1
+    return _replace_spans(src, spans)
+
+
+def rule_R21(src, stats):
+    """leading three-way text ladder of two-argument functions
+    `if !is_jsonb(X) && !is_jsonb(Y) {..} else if !is_jsonb(X) {..} else if !is_jsonb(Y) {..}`  (no final else)
+    -> `if !is_jsonb(X) || !is_jsonb(Y) { vx_unreachable() }`: the three JSON-text branches are dropped from the verified
+    text; sound only together with `requires spec_is_jsonb(X@), spec_is_jsonb(Y@)`, under which all three conditions are
+    false and Verus must prove the replacement branch unreachable (vx_unreachable requires false).  The shape of the three
+    conditions is checked token by token; anything else is an ExtractError."""
+    code = _toks(src)
+    tx = [t.text for t in code]
+    for i in range(len(code) - 14):
+        if tx[i:i + 4] == ["if", "!", "is_jsonb", "("] and tx[i + 5:i + 7] == [")", "&"] and tx[i + 7] == "&" \
+                and tx[i + 8:i + 11] == ["!", "is_jsonb", "("] and tx[i + 12:i + 14] == [")", "{"]:
+            x, y = tx[i + 4], tx[i + 11]
+            e1 = match_close(code, i + 13)
+            if tx[e1 + 1:e1 + 8] != ["else", "if", "!", "is_jsonb", "(", x, ")"] or tx[e1 + 8] != "{":
+                raise ExtractError("R21: second arm is not `else if !is_jsonb(%s) {`" % x)
+            e2 = match_close(code, e1 + 8)
+            if tx[e2 + 1:e2 + 8] != ["else", "if", "!", "is_jsonb", "(", y, ")"] or tx[e2 + 8] != "{":
+                raise ExtractError("R21: third arm is not `else if !is_jsonb(%s) {`" % y)
+            e3 = match_close(code, e2 + 8)
+            if tx[e3 + 1] == "else":
+                raise ExtractError("R21: ladder has a final else")
+            stats["R21"] = stats.get("R21", 0) + 1
+            return _replace_spans(src, [(code[i].start, code[e3].end,
+                                         "if !is_jsonb(%s) || !is_jsonb(%s) { vx_unreachable() }" % (x, y))])
+    return src
+
+
+def rule_R31(src, stats):
+    """for P in E { B }  ->  for P in vx_itN: E { B }   (N = loop ordinal; E not a range, not already named):
+    only names the Verus ghost iterator so that loop invariants can refer to vx_itN.index / vx_itN.snapshot"""
+    while True:
+        code = _toks(src)
+        hit = False
+        for ordinal, (kw, bopen, bclose) in enumerate(_loops(code), 1):
+            if code[kw].text != "for":
+                continue
+            hdr = src[code[kw].start:code[bopen].start]
+            m = re.match(r"for\s+(.+?)\s+in\s+(.+?)\s*$", hdr, re.S)
+            if not m or ".." in m.group(2) or re.match(r"vx_it\d+\s*:", m.group(2)):
+                continue
+            src = _replace_spans(src, [(code[kw].start, code[bopen].start,
+                                        "for %s in vx_it%d: %s " % (m.group(1), ordinal, m.group(2)))])
+            stats["R31"] = stats.get("R31", 0) + 1
+            hit = True
+            break
+        if not hit:
+            return src
+
+
 RULES = {"R11": rule_R11, "R1": rule_R1, "R2": rule_R2, "R3": rule_R3, "R4": rule_R4, "R5": rule_R5,
-         "R6": rule_R6, "R7": rule_R7, "R8": rule_R8, "R9": rule_R9}
+         "R6": rule_R6, "R7": rule_R7, "R8": rule_R8, "R9": rule_R9, "R21": rule_R21, "R31": rule_R31}
 
 RULE_DOC = {k: (v.__doc__ or "").strip() for k, v in RULES.items()}
+RULES["R13"] = rule_R13
+RULES["R14"] = rule_R14
+RULE_DOC["R14"] = rule_R14.__doc__.strip()
+RULE_DOC["R13"] = rule_R13.__doc__.strip()
+RULE_DOC["R12"] = rule_R12.__doc__.strip()
 RULE_DOC["R0"] = rule_R0.__doc__.strip()
 RULE_DOC["R10"] = "impl<..> Trait for X { type Item = T; fn next(..) } -> inherent impl<..> X { fn next(..) } with Self::Item replaced by T"
+
+
+def rule_R41(src, stats):
+    """`A += B;` where B is an identifier bound (by reference) in the pattern of a `for PAT in E.iter()` header or of a
+    `let PAT = &E[I];` of the same function -> `A += *B;`.  std forwards `usize += &usize` to `usize += usize`
+    (forward_ref_op_assign!), vstd only specifies the latter.  If B were not a reference the result would not type-check."""
+    code = _toks(src)
+    refs = set()
+    for (kw, bopen, bclose) in _loops(code):
+        if code[kw].text != "for":
+            continue
+        hdr = code[kw + 1:bopen]
+        try:
+            in_idx = next(k for k, t in enumerate(hdr) if t.kind == "ident" and t.text == "in")
+        except StopIteration:
+            continue
+        if [t.text for t in hdr[-4:]] != [".", "iter", "(", ")"]:
+            continue
+        refs.update(t.text for t in hdr[:in_idx] if t.kind == "ident" and t.text != "_")
+    for i, t in enumerate(code):
+        if t.kind == "ident" and t.text == "let":
+            k = i + 1
+            while k < len(code) and code[k].text not in ("=", ";"):
+                k += 1
+            if k + 1 < len(code) and code[k].text == "=" and code[k + 1].text == "&" and code[k + 2].text != "mut":
+                refs.update(x.text for x in code[i + 1:k] if x.kind == "ident" and x.text not in ("_", "mut", "ref"))
+    spans = []
+    for i in range(len(code) - 3):
+        if code[i].text == "+" and code[i + 1].text == "=" and code[i].end == code[i + 1].start \
+                and code[i + 2].kind == "ident" and code[i + 2].text in refs and code[i + 3].text == ";":
+            spans.append((code[i + 2].start, code[i + 2].start, "*")); stats["R41"] = stats.get("R41", 0) + 1
+    return _replace_spans(src, spans)
+
+
+RULES["R41"] = rule_R41
+RULE_DOC["R41"] = rule_R41.__doc__.strip()
+
+
+def rule_R22(src, stats):
+    """(dual of R11/R21) the binary tail of `fn F(P1, .., Pn)`, i.e. every statement after the first top-level
+    `if !is_jsonb(..) .. {..} [else if ..{..}]* [else {..}]` chain of the body, -> `vx_tail_F(P1, .., Pn)`: the text ladder is
+    verified verbatim, the inline binary tail becomes a call of the unit's stub `vx_tail_F`, which carries the precondition
+    `spec_is_jsonb` of every document argument (the tail itself is verified under that precondition by the unit that applies
+    R11/R21 to the same function).  Parameters must be plain identifiers; an empty tail is an ExtractError."""
+    code = _toks(src)
+    tx = [t.text for t in code]
+    k = 0
+    while tx[k] != "fn":
+        k += 1
+    name = tx[k + 1]
+    k += 2
+    ad = 0      # angle depth of the generics list between the name and the parameter list
+    while not (tx[k] == "(" and ad == 0):
+        if tx[k] == "<":
+            ad += 1
+        elif tx[k] == ">" and tx[k - 1] != "-":
+            ad -= 1
+        k += 1
+    pclose = match_close(code, k)
+    params, d, expect = [], 0, True
+    for j in range(k + 1, pclose):
+        t = tx[j]
+        if t in "([{<":
+            d += 1
+        elif t in ")]}>" and not (t == ">" and tx[j - 1] == "-"):
+            d -= 1
+        elif d == 0 and t == ",":
+            expect = True
+        elif expect and d == 0 and code[j].kind == "ident" and t != "mut":
+            if tx[j + 1] != ":":
+                raise ExtractError("R22: parameter %r of %s is not a plain identifier" % (t, name))
+            params.append(t); expect = False
+    b = pclose + 1
+    while tx[b] != "{":
+        b = match_close(code, b) + 1 if tx[b] in "([" else b + 1
+    bclose = match_close(code, b)
+    depth = 0
+    for i in range(b + 1, bclose):
+        t = tx[i]
+        if t in "([{":
+            depth += 1
+        elif t in ")]}":
+            depth -= 1
+        elif depth == 0 and tx[i:i + 4] == ["if", "!", "is_jsonb", "("] and tx[i - 1] in ("{", ";", "}"):
+            j = i
+            while tx[j] != "{":
+                j = match_close(code, j) + 1 if tx[j] in "([" else j + 1
+            e = match_close(code, j)
+            while tx[e + 1] == "else":
+                j = e + 2
+                while tx[j] != "{":
+                    j = match_close(code, j) + 1 if tx[j] in "([" else j + 1
+                e = match_close(code, j)
+            if e + 1 >= bclose:
+                raise ExtractError("R22: %s has no statements after its is_jsonb ladder" % name)
+            stats["R22"] = stats.get("R22", 0) + 1
+            return _replace_spans(src, [(code[e].end, code[bclose].start,
+                                         "\n    vx_tail_%s(%s)\n" % (name, ", ".join(params)))])
+    return src
+
+
+RULES["R22"] = rule_R22
+RULE_DOC["R22"] = rule_R22.__doc__.strip()
 
 
 # --------------------------------------------------------------------------- unit parsing
@@ -391,6 +602,8 @@ def parse_unit(path):
                 continue
             if w[0] == "unit":
                 unit["name"] = w[1]; cur = None
+            elif w[0] == "feature":
+                unit.setdefault("features", []).append(w[1]); cur = None
             elif w[0] == "raw":
                 cur = ("raw", {"line": lineno}); unit["parts"].append(cur)
             elif w[0] == "consts":
@@ -588,6 +801,8 @@ def build(unit_path, prelude_paths, canary=False):
 
     emit("// GENERATED by /verif/tools/extract.py from %s -- do not edit\n" % unit_path, {"origin": "gen"})
     emit("#![allow(unused_imports, unused_variables, unused_mut, dead_code, unused_assignments, non_snake_case, unreachable_patterns, unused_parens, unused_braces, unreachable_code)]\n", {"origin": "gen"})
+    for feat in unit.get("features", []):
+        emit("#![feature(%s)]\n" % feat, {"origin": "gen"})
     emit("use vstd::prelude::*;\nuse vstd::std_specs::iter::IteratorSpec;\nuse std::collections::{BTreeMap, BTreeSet, VecDeque};\nuse std::borrow::Cow;\nuse std::cmp::Ordering;\nverus! {\n", {"origin": "gen"})
     for p in prelude_paths:
         emit(open(p).read() + "\n", {"origin": "prelude", "file": p})
@@ -603,6 +818,8 @@ def build(unit_path, prelude_paths, canary=False):
                         continue
                     t = rule_R0(it.text, stats)
                     t = re.sub(r"^\s*(pub\s+)?", "pub ", t, count=1)
+                    if re.match(r"pub\s+static\b", t):
+                        t = rule_R12(t, stats)
                     emit(t + "\n", {"origin": "code", "file": part["file"], "line": it.line, "fn": it.name})
             missing = [n for n in names if n != "*" and not any(it.kind == "const" and it.name == n for it in items)]
             if missing:
